@@ -40,6 +40,11 @@ PROPS = {
                 assumptions=["A-EOMBW"]),
     "C16": dict(lemmas=[], not_decided=["Blackman / Kaiser / Interpolated numerics, from_max_val, __eq__ vs isclose, finiteness: bounded stand-in (durations 1..40 exhaustive)",
                                         "floating-point range of the phase modulo (outside A-REAL)"], assumptions=["A-NUMPY elementwise array arithmetic, np.ones/arange/clip"]),
+    "C18": dict(lemmas=["C18-leaf-rise_time", "C18-leaf-rounding", "C18-leaf-phase_jump_time", "C18-leaf-min_duration", "C18-leaf-max_duration"],
+                not_decided=["replay determinism (identical calls on agreeing channels give identical timelines) is argued from the leaves, not an obligation",
+                             "EOM-mode channels (strict compares only the EOM bandwidth when not parametrized) and the non-strict clause: bounded stand-in",
+                             "switch_register: bounded stand-in"],
+                assumptions=["A-MODBW modulation buffers depend on the channel only through its bandwidths"]),
     "C10": dict(lemmas=[], not_decided=["phase-jump clause with phase-drift correction (EOM) is stated for drift-free adds only"], assumptions=[]),
     "C09": dict(only=r"/(exc_safe|frame)\.", lemmas=[], not_decided=["replay determinism as a theorem; draw()"], assumptions=[]),
 }
